@@ -124,19 +124,12 @@ def serTokensTop (env : Env) (t : Tree) : Except XotError (List Token) := serTok
 
 /-! ### The round-trip domain -/
 
-def xmlNamespaceUri : Str :=
-  ['h', 't', 't', 'p', ':', '/', '/', 'w', 'w', 'w', '.', 'w', '3', '.', 'o', 'r', 'g', '/', 'X', 'M', 'L', '/',
-   '1', '9', '9', '8', '/', 'n', 'a', 'm', 'e', 's', 'p', 'a', 'c', 'e']
-
 /-- Is the name id the attribute name `xml:id` (by expanded name)? -/
 def isXmlIdName (env : Env) (name : Nat) : Bool :=
   env.nsOfName name == Env.xmlNamespace && env.localName name == ['i', 'd']
 
 /-- A non-empty NCName as `consume_qname` reads it. -/
 def ncNameNE (s : Str) : Bool := ncNameOK s && !s.isEmpty
-
-/-- ASCII lower-casing (for the reserved PI target `xml` in any letter case). -/
-def asciiLowerChar (c : Char) : Char := if 65 ≤ c.toNat && c.toNat ≤ 90 then Char.ofNat (c.toNat + 32) else c
 
 /-- The interning tables hold the built-in values of `Xot::new` at their ids and no value twice. -/
 def envOK (env : Env) : Bool :=
@@ -150,21 +143,24 @@ def valueOK (env : Env) : Value → Bool
   | .document => true
   | .element name => ncNameNE (env.localName name)
   | .text s => !s.isEmpty && s.all isXmlChar
-  | .comment s => s.all isXmlChar && !hasInfix ['-', '-'] s && s.getLast? != some '-'
+  -- a raw CR in a comment / PI is written as it is and read back as LF (line-end normalisation)
+  | .comment s => s.all isXmlChar && !hasInfix ['-', '-'] s && s.getLast? != some '-' && !s.contains '\r'
   | .pi target data =>
     env.nsOfName target == Env.noNamespace && ncNameNE (env.localName target) &&
     (env.localName target).map asciiLowerChar != ['x', 'm', 'l'] &&
     (match data with
      | none => true
-     | some d => !d.isEmpty && !(d.head?.any isXmlSpace) && d.all isXmlChar && !hasInfix ['?', '>'] d)
+     | some d => !d.isEmpty && !(d.head?.any isXmlSpace) && d.all isXmlChar && !hasInfix ['?', '>'] d &&
+        !d.contains '\r')
   | .attribute name v =>
     ncNameNE (env.localName name) && v.all isXmlChar &&
     !(env.nsOfName name == Env.noNamespace && env.localName name == xmlnsName) &&
     -- the parser ID-normalises the value of `xml:id`
     (!isXmlIdName env name || normalizeXmlId v == v)
   | .namespace p ns =>
-    -- the reserved `xml` binding is never written: it cannot be a node; `xmlns:p=""` is not XML 1.0
-    p != Env.xmlPrefix && ns != Env.xmlNamespace &&
+    -- the reserved `xml` binding is never written: it cannot be a node; `xmlns:p=""` is not XML 1.0;
+    -- nothing can be bound to the xmlns namespace name (all rejected by the parser)
+    p != Env.xmlPrefix && ns != Env.xmlNamespace && env.namespaceStr ns != xmlnsNamespaceUri &&
     (p == Env.emptyPrefix ||
       (ncNameNE (env.prefixStr p) && env.prefixStr p != xmlnsName && ns != Env.noNamespace)) &&
     (ns == Env.noNamespace || !(env.namespaceStr ns).isEmpty) && (env.namespaceStr ns).all isXmlChar
